@@ -1374,7 +1374,9 @@ macro_rules! skip_iterator_iter_base {
         #[inline(always)]
         fn current_count(&self) -> usize {
             if Self::IS_CONTIGUOUS {
-                self.byte.current_count()
+                // NOTE: the buffer itself can be non-contiguous (another component
+                // has digit separators): its count is then not the cursor.
+                self.byte.index
             } else {
                 self.byte.$count
             }
